@@ -63,8 +63,14 @@ fn double_quoted(s: &str, rng: &mut Rng, feats: &mut Feats, plain: bool, out: &m
     out.push('"');
     for c in s.chars() {
         let u = c as u32;
-        let must = !raw_safe(c) || c == '"' || c == '\\';
+        // U+FEFF inside content is not YAML 1.2 (nb-char excludes the byte order mark), but libyaml - and
+        // therefore xt and the harness's reader - take it as an ordinary character: a hostile spelling
+        // leaves it raw (it can never open the stream here, so it cannot be taken for a mark)
+        let must = (!raw_safe(c) && !(c == '\u{feff}' && !plain)) || c == '"' || c == '\\';
         if !must && (plain || !rng.chance(1, 8)) {
+            if c == '\u{feff}' {
+                feats.hit("yaml_raw_bom_character_in_content");
+            }
             out.push(c);
             continue;
         }
